@@ -160,4 +160,79 @@ def localResidual {m : Nat} (A : Mat m m) (s : Fin m → Rat) (u : Vec m) (pc : 
 /-- the cell row: `-(cell_facesᵀ u)_c` (zero source) -/
 def localDivergence {m : Nat} (s : Fin m → Rat) (u : Vec m) : Rat := - sumFin m fun g => s g * u g
 
+/-! ### predicates and data used by the property theorems -/
+
+def IsSymm {n : Nat} (A : Mat n n) : Prop := ∀ i j, A i j = A j i
+def NonZero {n : Nat} (v : Vec n) : Prop := ∃ i, v i ≠ 0
+def PosDef {n : Nat} (A : Mat n n) : Prop := ∀ v : Vec n, NonZero v → 0 < quadForm A v
+def PosSemidef {n : Nat} (A : Mat n n) : Prop := ∀ v : Vec n, 0 ≤ quadForm A v
+/-- `B` is a two-sided inverse of `A` -/
+def IsInverse {n : Nat} (B A : Mat n n) : Prop :=
+  (∀ i j, matMul B A i j = idMat n i j) ∧ (∀ i j, matMul A B i j = idMat n i j)
+
+/-- the `d+1` vertices are affinely independent (the simplex is not degenerate) -/
+def AffineIndep {d : Nat} (x : Fin (d + 1) → Vec d) : Prop :=
+  ∀ t : Vec (d + 1), sumFin (d + 1) t = 0 → (∀ a, sumFin (d + 1) (fun j => t j * x j a) = 0) → ∀ j, t j = 0
+
+/-- cell centre of a simplex -/
+def centroid {d : Nat} (x : Fin (d + 1) → Vec d) : Vec d :=
+  fun a => sumFin (d + 1) (fun i => x i a) / ((d : Rat) + 1)
+
+/-- centre of the face opposite to vertex `j` -/
+def faceCentre {d : Nat} (x : Fin (d + 1) → Vec d) (j : Fin (d + 1)) : Vec d :=
+  fun a => (sumFin (d + 1) (fun i => x i a) - x j a) / (d : Rat)
+
+/-- The divergence theorem for constant and linear fields on one cell with `m` faces (this is
+    what property C19 establishes for the grid geometry): with `s f · nrm f` the outward, area
+    weighted normal of face `f` and `fc f` its centre, `Σ s n = 0` and `Σ s fc ⊗ n = V · I`.
+    `MVEM.massHdiv` asserts exactly this (`G = F D`). -/
+def DivThm {d m : Nat} (V : Rat) (s : Vec m) (fc nrm : Fin m → Vec d) : Prop :=
+  (∀ b, sumFin m (fun f => s f * nrm f b) = 0) ∧
+  (∀ a b, sumFin m (fun f => s f * fc f a * nrm f b) = if a = b then V else 0)
+
+/-- Darcy velocity `−K a` of the linear pressure `p(y) = a·y + b` -/
+def darcy {d : Nat} (K : Mat d d) (a : Vec d) : Vec d := fun i => - mulVec K a i
+def linP {d : Nat} (a : Vec d) (b : Rat) (y : Vec d) : Rat := dot a y + b
+/-- flux of the constant velocity `U` through every face (global normal orientation) -/
+def faceFlux {d m : Nat} (U : Vec d) (nrm : Fin m → Vec d) : Vec m := fun f => dot U (nrm f)
+
+/-! explicit outward normals (for positive orientation) and signed volumes of simplices -/
+
+def cross (u v : Vec 3) : Vec 3 := fun a =>
+  match a.val with
+  | 0 => u 1 * v 2 - u 2 * v 1
+  | 1 => u 2 * v 0 - u 0 * v 2
+  | _ => u 0 * v 1 - u 1 * v 0
+
+def simplexNormal1 (_x : Fin 2 → Vec 1) : Fin 2 → Vec 1 := fun j _ =>
+  match j.val with
+  | 0 => 1
+  | _ => -1
+def signedVol1 (x : Fin 2 → Vec 1) : Rat := x 1 0 - x 0 0
+
+/-- edge `p → q` rotated by −90° -/
+def rotEdge (p q : Vec 2) : Vec 2 := fun a =>
+  match a.val with
+  | 0 => q 1 - p 1
+  | _ => p 0 - q 0
+def simplexNormal2 (x : Fin 3 → Vec 2) : Fin 3 → Vec 2 := fun j =>
+  match j.val with
+  | 0 => rotEdge (x 1) (x 2)
+  | 1 => rotEdge (x 2) (x 0)
+  | _ => rotEdge (x 0) (x 1)
+def signedVol2 (x : Fin 3 → Vec 2) : Rat :=
+  ((x 1 0 - x 0 0) * (x 2 1 - x 0 1) - (x 2 0 - x 0 0) * (x 1 1 - x 0 1)) / 2
+
+def simplexNormal3 (x : Fin 4 → Vec 3) : Fin 4 → Vec 3 := fun j a =>
+  (match j.val with
+   | 0 => cross (vsub (x 2) (x 1)) (vsub (x 3) (x 1)) a
+   | 1 => cross (vsub (x 3) (x 0)) (vsub (x 2) (x 0)) a
+   | 2 => cross (vsub (x 1) (x 0)) (vsub (x 3) (x 0)) a
+   | _ => cross (vsub (x 2) (x 0)) (vsub (x 1) (x 0)) a) / 2
+def signedVol3 (x : Fin 4 → Vec 3) : Rat :=
+  dot (vsub (x 1) (x 0)) (cross (vsub (x 2) (x 0)) (vsub (x 3) (x 0))) / 6
+
+/-- leading principal minors (Sylvester's criterion) -/
+def minor2 {n : Nat} (K : Mat n n) (i j : Fin n) : Rat := K i i * K j j - K i j * K i j
+
 end PorepyVerif.C18
